@@ -55,7 +55,11 @@ def pb(v: int) -> bool:
 
 # templates: {I} int operand slot, {B} bool operand slot
 INT_FORMS = ["({I} + {I})", "({I} // 3 + {I})", "({I} - {I} * {I})", "({I} if {B} else {I})", "h1({I}, {B})", "array({I}, {I})[{I} % 2]",
-             "((w := {I}) + {I} + w)", "(-{I})", "h0({I})", "h1({I} + {I}, {B} and {B})"]
+             "((w := {I}) + {I} + w)", "(-{I})", "h0({I})", "h1({I} + {I}, {B} and {B})",
+             # a variable read before a later `:=` rebinds it in the same expression (defect repaired in b0ab4a7)
+             "((w := {I}) + w + (w := {I}) + w)",
+             # two operands that are built early, the first with a call outside its hoisted part (seeded C05_m_n)
+             "(((w := {I}) + {I}) * (({I} if {B} else {I}) + {I}))"]
 BOOL_FORMS = ["{I} < {I}", "{I} < {I} < {I}", "{I} <= {I} < {I} <= {I}", "({B} and {B})", "({B} or {B})",
               "({B} and {B} or {B})", "(not {B})", "({B} if {B} else {B})", "hb({I})", "{I} == {I}",
               "({B} and {I} < {I} < {I})"]
